@@ -394,10 +394,9 @@ func (t *tracker) Has(id []byte, ts int64) (bool, error) {
 	t.lock.Lock()
 	defer t.lock.Unlock()
 
-	if ts >= t.list.ts+t.list.th {
-		return false, nil
-	}
-	if t.locators != nil {
+	// a timestamp beyond this block's window rules out this block only: an
+	// ancestor with a larger threshold may still hold the transaction
+	if ts < t.list.ts+t.list.th && t.locators != nil {
 		if _, ok := t.locators[string(id)] ; ok {
 			return true, nil
 		}
